@@ -28,6 +28,7 @@ from __future__ import annotations
 
 import ast
 import contextlib
+import copy
 import dataclasses
 import datetime
 import operator
@@ -468,7 +469,6 @@ def load(val: _T) -> PythonValueT | _T:
     return strload(val) if inspection.istexttype(val.__class__) else val  # type: ignore[arg-type]
 
 
-@compat.lru_cache(maxsize=100_000)
 def strload(val: str | bytes | bytearray | memoryview) -> PythonValueT:
     """Attempt to decode a string-like input into a Python value.
 
@@ -491,6 +491,18 @@ def strload(val: str | bytes | bytearray | memoryview) -> PythonValueT:
     Args:
         val: The string-like input to be decoded.
     """
+    # `bytearray` and writable `memoryview` are not hashable, `bytes` are.
+    if isinstance(val, (bytearray, memoryview)):
+        val = bytes(val)
+    loaded = _strload(val)
+    # Never hand out the memoized object itself if it can be mutated.
+    if loaded.__class__ in (dict, list, set, tuple):
+        return copy.deepcopy(loaded)
+    return loaded
+
+
+@compat.lru_cache(maxsize=100_000)
+def _strload(val: str | bytes) -> PythonValueT:
     with contextlib.suppress(ValueError):
         return compat.json.loads(val)
 
